@@ -123,6 +123,8 @@ Section P.
     - fin I.
     - unfold gsync; unfold spec_view, spec_sstep. destruct (stale st || force); [rewrite I; destruct (mem st) as [|v m] eqn:M|]; fin I.
     - unfold gsync, fresh; unfold spec_view, spec_sstep; cbn. rewrite I. destruct (mem st) as [|v m] eqn:M; fin I.
+    - destruct e as [| | |[|]| | |[|]|]; cbn [hold_enter walk it_src it_used it_items];
+      unfold gsync, fresh; unfold spec_view, spec_sstep; cbn; rewrite I; destruct (mem st) as [|v m] eqn:M; fin I.
     - fin I.
     - fin I.
     - fin I.
@@ -277,6 +279,14 @@ Section P.
         rewrite (dedupe_id (dedupe pre)) by apply dedupe_nodup.
         split; [fin I|]. apply dedupe_nodup.
       + rewrite oset_load by assumption. split; [fin I|auto].
+    - (* Enter: every entry point hands the queue to inject *)
+      destruct e as [| | |[|]| | |[|]|]; cbn [hold_enter walk it_src it_used it_items];
+      (unfold gsync, fresh; unfold spec_view, spec_sstep; cbn -[oset_update]; rewrite I;
+       destruct (mem st) as [|v m] eqn:M; cbn -[oset_update];
+       [ rewrite oset_pre; change (dedupe_acc [] (dedupe pre)) with (dedupe (dedupe pre));
+         rewrite (dedupe_id (dedupe pre)) by apply dedupe_nodup;
+         split; [fin I|]; apply dedupe_nodup
+       | rewrite oset_load by assumption; split; [fin I|auto] ]).
     - fin I.
     - fin I.
     - fin I.
@@ -323,3 +333,13 @@ Lemma rejected_identity pyeq (S : Type) sstep sview set q (s : S) st o :
 Proof.
   destruct o; try discriminate; intros _; cbn [gstep]; try destruct set; repeat split; eauto.
 Qed.
+
+(* every way a queue can enter a Hold is the one abstract step [Reopen pre] (= enter_hold):
+   the item reaches Hold.inject exactly once, whatever the entry point and whether or not the
+   iterable handed to update()/Hold() can be walked a second time *)
+Lemma hold_enter_all {A} (e : entry) (items : list A) : hold_enter e items = items.
+Proof. destruct e as [| | |[|]| | |[|]|]; reflexivity. Qed.
+
+Lemma enter_is_reopen pyeq (S : Type) sstep sview set q (s : S) st e pre :
+  gstep pyeq S sstep sview set q s st (Enter e pre) = gstep pyeq S sstep sview set q s st (Reopen pre).
+Proof. cbn [gstep]. now rewrite hold_enter_all. Qed.
